@@ -122,6 +122,8 @@ class FakeWriter:
             raise ConnectionResetError("peer gone")
         if self.paused is not None:
             await self.paused.wait()
+            if self.fail:
+                raise ConnectionResetError("connection lost")
         # a real transport yields to the loop at least when its buffer is above the high-water mark; not here
 
     def write_eof(self):
@@ -135,6 +137,9 @@ class FakeWriter:
         if not self.closed:
             self.closed = True
             self.log.append((self.loop.time(), "close", None))
+            if self.paused is not None:
+                self.fail = True             # connection_lost: the drain() waiters are woken with an error
+                self.paused.set()
             # connection_lost -> the reader sees EOF
             if not self.reader.at_eof() and self.reader.exception() is None:
                 self.reader.feed_eof()
@@ -201,6 +206,14 @@ def run_asyncio(app, config, script, alpn=None, max_requests=None, tail=30.0):
                 result["trace"].append((loop.time(), "terminate"))
                 await context.terminated.set()
                 await asyncio.sleep(0)
+            elif step[0] == "stall":
+                writer.paused = asyncio.Event()      # the client has stopped reading: drain() waits
+            elif step[0] == "unstall":
+                if writer.paused is not None:
+                    writer.paused.set()
+                    writer.paused = None
+                for _ in range(12):
+                    await asyncio.sleep(0)
         # let everything settle for `tail` virtual seconds
         try:
             await asyncio.wait_for(asyncio.shield(task), tail)
@@ -250,11 +263,27 @@ def run_trio(app, config, script, alpn=None, max_requests=None, tail=30.0):
             self.closed = False
             self.t0 = 0.0
             self.reset = trio.Event()
+            self.sending = False
+            self.stalled = None      # trio.Event while the client is not reading
 
         async def send_all(self, data):
             if self.fail:
                 raise trio.BrokenResourceError("peer gone")
-            await self.inner.send_all(data)
+            if self.closed:
+                raise trio.ClosedResourceError("stream closed")
+            self.sending = True
+            try:
+                if self.stalled is not None:
+                    # the client has stopped reading and the socket buffers are full: send_all parks until it is
+                    # released - by the client, or by this end being closed underneath it
+                    await self.stalled.wait()
+                    if self.closed:
+                        raise trio.ClosedResourceError("stream closed while sending")
+                    if self.fail:
+                        raise trio.BrokenResourceError("peer gone")
+                await self.inner.send_all(data)
+            finally:
+                self.sending = False
             log.append((trio.current_time() - self.t0, "data", bytes(data)))
 
         async def wait_send_all_might_not_block(self):
@@ -286,12 +315,16 @@ def run_trio(app, config, script, alpn=None, max_requests=None, tail=30.0):
             return got[0][1]
 
         async def send_eof(self):
+            if self.sending:
+                raise trio.BusyResourceError("another task is sending on this stream")      # as trio.SocketStream does
             await self.inner.send_eof()
 
         async def aclose(self):
             if not self.closed:
                 self.closed = True
                 log.append((trio.current_time() - self.t0, "close", None))
+            if self.stalled is not None:
+                self.stalled.set()        # closing the socket wakes the parked sender (it then fails)
             await self.inner.aclose()
 
     class SSLServerStream:
@@ -373,6 +406,13 @@ def run_trio(app, config, script, alpn=None, max_requests=None, tail=30.0):
                         result["trace"].append((trio.current_time() - t0, "terminate"))
                         await context.terminated.set()
                         await trio.sleep(0)
+                    elif step[0] == "stall":
+                        sstream.stalled = trio.Event()
+                    elif step[0] == "unstall":
+                        if sstream.stalled is not None:
+                            sstream.stalled.set()
+                            sstream.stalled = None
+                        await trio.testing.wait_all_tasks_blocked()
                 except (trio.BrokenResourceError, trio.ClosedResourceError):
                     pass
             with trio.move_on_after(tail):
@@ -380,6 +420,11 @@ def run_trio(app, config, script, alpn=None, max_requests=None, tail=30.0):
             if not done.is_set():
                 result["cutoff"] = trio.current_time() - t0
                 result["leftovers"] = ["<handler still running>"]
+            # a sender parked in a stalled send_all sits in a shielded scope (TCPServer.protocol_send): release it, failing,
+            # or the cancellation below would wait for it for ever
+            sstream.fail = True
+            if sstream.stalled is not None:
+                sstream.stalled.set()
             nursery.cancel_scope.cancel()
 
     trio.run(main, clock=clock)
